@@ -237,3 +237,31 @@ func verifC11FileScan(n int) {
 	_, e := fl.RetrieveRule(0)
 	verifAssert(e != nil, "c19: retrieval from a closed file is an error")
 }
+
+// verifC11Long: the scanner's line splitting on a line about as long as its read
+// buffer: a filler of readerBufferSize-4+k bytes, four symbolic bytes over {a, LF}
+// and a last byte.  However long a line is, it extends to its line feed, lines
+// are consecutive and the index of a line is the offset of its first byte.
+func verifC11Long(k int) {
+	n := readerBufferSize - 4 + k
+	content := strings.Repeat("a", n) + verifString("mid", 4, "a\n") + "a"
+	s := NewRuleScanner(strings.NewReader(content), 1, false)
+	pos := 0
+	for i := 0; i < 7; i++ {
+		line, idx, err := s.readNextLine()
+		if err != nil {
+			break
+		}
+		verifAssert(idx == pos, "c11: a line's index is the offset of its first byte")
+		verifAssert(pos+len(line) <= len(content), "c11: lines are consecutive pieces of the content")
+		verifAssert(content[pos:pos+len(line)] == line, "c11: lines are consecutive pieces of the content")
+		want := len(content) - pos
+		if j := strings.IndexByte(content[pos:], '\n'); j >= 0 {
+			want = j + 1
+		}
+		verifAssert(len(line) == want, "c11: a line extends to its line feed however long it is")
+		pos += len(line)
+	}
+	verifReach("c11.long")
+	verifAssert(pos == len(content), "c11: the whole content is scanned")
+}
